@@ -207,6 +207,7 @@ def check(db, rep):
     _scan_evaluated(db, rep)
     _offset_faithful(db, rep)
     _stored_valid(db, rep)
+    _legacy_fields(db, rep)
     _write_back_and_resolve(db, rep)
 
 
@@ -449,7 +450,7 @@ def _scan_evaluated(db, rep):
     pieces = list(VALID) + ['@', '@{', 'a', 'я', '}', ' ', '@{oops}'] + (['{', '@{}', 'ℬ'] if thorough else [])
 
     def oracle(text):
-        """list of (start, finish) or None when the definition leaves the text open (an ill-formed balanced marker that contains another marker)"""
+        """list of (start, finish): leftmost-outermost well-formed occurrences; an ill-formed marker (closed or not) is plain text and hides nothing"""
         out, i = [], 0
         while i < len(text):
             if text[i] == '@' and i + 1 < len(text) and text[i + 1] == '{':
@@ -468,9 +469,7 @@ def _scan_evaluated(db, rep):
                         out.append((i, end + 1))
                         i = end + 1
                         continue
-                    if '@{' in body[2:]:
-                        return None
-                    i = end + 1                       # an ill-formed balanced marker is plain text
+                    i += 2                            # an ill-formed balanced marker is plain text: the occurrences inside it still count
                     continue
             i += 1
         return out
@@ -635,3 +634,56 @@ def _stored_valid(db, rep):
                     else:
                         r11.violation(inst, f.loc(n), 'refs assigned from `%s`, which is not known to hold only valid references' % (f.stmts[n['args'][1]].get('txt', '') if n['k'] == 'CXXOperatorCallExpr' else '')[:60])
     rep.note('r11_writers_of_refs', n_w)
+
+
+def _legacy_fields(db, rep):
+    """r12: the legacy spelling @{X1|tag|tag|index}. ExtractMorpho (interpreted) on every field list over a few grammeme names - among them the
+    names that begin with a digit - and index numbers: the tags handed to Morphology are the written fields, except a last field that is a
+    number (the legacy index). A grammeme is never taken for the index, so `@{X1|sing|3per}` and `@{X1|sing,3per}` read the same."""
+    import itertools
+    r12 = rep.rule('r12', 'LEGACY-FIELDS: in the legacy spelling only a numeric last field is dropped as the index; every grammeme written is read (names beginning with a digit included)', 1)
+    em = next((f for f in db.functions if f.name.endswith('::ExtractMorpho') and f.body >= 0), None)
+    if em is None:
+        r12.broken('anchor vanished: ExtractMorpho')
+        return
+    try:
+        tn = _static_init(db, 'detail::TAG_NAMES')
+    except AnalysisBroken as e:
+        r12.broken(str(e))
+        return
+    names = [bytes.fromhex(n.get('hex', '')).decode() for n in tn.walk() if n['k'] == 'StringLiteral']
+    digit_names = sorted(x for x in names if x[:1].isdigit())
+    plain = [x for x in names if x[:1].isalpha()][:2]
+    if not digit_names or len(plain) < 2:
+        r12.broken('grammeme names not recognised (%d names, %d beginning with a digit)' % (len(names), len(digit_names)))
+        return
+    fields = plain + digit_names[:3] + ['0', '3', '12']
+
+    def on_call(it, fn, n, env):
+        cs = n.get('cs') or ''
+        if n['k'] in ('CXXConstructExpr', 'CXXTemporaryObjectExpr') and (n.get('cls') or '') == L + 'Morphology' and len(n.get('args', [])) == 1:
+            a = it.eval(fn, fn.stmts[n['args'][0]], env)
+            return Obj(__cls__=L + 'Morphology', arg=a)
+        if cs == '__assert_fail':
+            return None
+        return NOT_HANDLED
+    bad, cases = None, 0
+    try:
+        for k in (2, 3):
+            for combo in itertools.product(fields, repeat=k):
+                if any(x.isdigit() for x in combo[:-1]):
+                    continue                         # a number before the last field is not a spelling the legacy format produced
+                cases += 1
+                r = Interp(db, on_call=on_call).call(em, [[b'X1'] + [x.encode() for x in combo]])
+                got = r.get('arg') if isinstance(r, Obj) else None
+                got = [bytes(x).decode() for x in got] if isinstance(got, list) else got
+                want = list(combo[:-1]) if combo[-1].isdigit() else list(combo)
+                if got != want and bad is None:
+                    bad = '@{X1|%s} is read with the tags %s; the fields written are %s%s' % ('|'.join(combo), got, want, '' if not combo[-1].isdigit() else ' and the index %s' % combo[-1])
+    except OutOfFragment as e:
+        r12.broken('ExtractMorpho outside the evaluable fragment: %s' % e)
+        return
+    if bad:
+        r12.violation('ExtractMorpho', '%s:%d' % (em.file, em.line), bad)
+    else:
+        r12.ok('ExtractMorpho', '%d legacy field lists over %s' % (cases, fields), '%s:%d' % (em.file, em.line))
